@@ -142,6 +142,10 @@ def mixture_gain_invariance(model, obs, emb, init, iterations, opts, gain, emb_g
     else:
         tag = 'gain-and-embedding-scale'
     r = _compare_models(name, a, b, shape, obs, emb, obs2, emb2, tag)
+    if r is not None and (opts or {}).get('inline_permutation_aligner') is not None \
+            and pu.inline_aligner_ties(name, obs, init, iterations, opts) is not None:
+        # a (near-)tie in the aligner's score matrix is decided by the last bits of the posteriors
+        return Skip('tie-within-rounding: inline aligner score tie')
     if r is not None:
         r.desc += f' ({what}; |c| in [{np.min(np.abs(gain)) if gain is not None else 1:.1e}, ' \
                   f'{np.max(np.abs(gain)) if gain is not None else 1:.1e}])'
@@ -257,7 +261,7 @@ def search(ctx):
         ctx.run(distribution_gain_invariance, dist=dist, y=y, saliency=sal, gain=g)
     sched = []
     for name in pu.DIRECTIONAL:
-        sched += [name] * ctx.n(45, 500)
+        sched += [name] * ctx.n(150, 800)
     for j in rng.permutation(len(sched)):
         if ctx.out_of_time(reserve=10):
             ctx.note('model stream cut short by the time budget')
